@@ -172,6 +172,8 @@ def run_cases(cases, total_timeout):
                 r[k] = mv.as_long() if z3.is_int_value(mv) else (z3.is_true(mv) if z3.is_bool(mv) else str(mv))
             elif isinstance(v, (list, tuple)):
                 r[k] = [conc({"x": x}, model)["x"] for x in v]
+            elif isinstance(v, dict):
+                r[k] = conc(v, model)
             else:
                 r[k] = v
         return r
